@@ -1,0 +1,245 @@
+//! Instrumented synchronisation primitives (only compiled with the `verif` feature).
+//!
+//! Drop-in replacements for `std::sync::{Mutex, MutexGuard, Condvar}` and
+//! `std::sync::atomic::AtomicU32` exposing the subset of the API the tower uses. Each operation
+//! reports to a per-thread [Hooks] table *before* it takes effect, so an external controlled
+//! scheduler can decide which thread runs next. With no table installed on the calling thread the
+//! wrappers are plain pass-throughs to the std types (same blocking, same poisoning).
+
+use std::cell::RefCell;
+use std::fmt;
+use std::ops::{Deref, DerefMut};
+use std::panic::Location;
+use std::sync::atomic::{AtomicUsize, Ordering};
+use std::sync::{self, Arc, LockResult, PoisonError};
+
+/// Callbacks invoked by the instrumented primitives on threads that have a table installed.
+pub trait Hooks: Send + Sync {
+    /// A primitive has been created (`kind` is "mutex", "condvar" or "atomic").
+    fn created(&self, id: usize, kind: &'static str, at: &'static Location<'static>);
+    /// Called before acquiring mutex `id`. Must return only once the caller may acquire it.
+    fn before_lock(&self, id: usize);
+    /// Called right after mutex `id` has been released.
+    fn after_unlock(&self, id: usize);
+    /// Called by `Condvar::wait` after the real mutex has been released. Must return only once the
+    /// caller has been notified and may re-acquire `mutex`.
+    fn wait(&self, condvar: usize, mutex: usize);
+    /// Called before notifying `condvar`.
+    fn notify(&self, condvar: usize, all: bool);
+    /// Called before an atomic load (`store == false`) or store (`store == true`).
+    fn atomic(&self, id: usize, store: bool);
+}
+
+thread_local! {
+    static HOOKS: RefCell<Option<Arc<dyn Hooks>>> = const { RefCell::new(None) };
+}
+
+static NEXT_ID: AtomicUsize = AtomicUsize::new(1);
+
+/// Installs (or removes) the hook table of the calling thread.
+pub fn set_thread_hooks(hooks: Option<Arc<dyn Hooks>>) {
+    HOOKS.with(|h| *h.borrow_mut() = hooks);
+}
+
+fn hooks() -> Option<Arc<dyn Hooks>> {
+    HOOKS.try_with(|h| h.borrow().clone()).ok().flatten()
+}
+
+fn new_id(kind: &'static str, at: &'static Location<'static>) -> usize {
+    let id = NEXT_ID.fetch_add(1, Ordering::Relaxed);
+    if let Some(h) = hooks() {
+        h.created(id, kind, at);
+    }
+    id
+}
+
+pub struct Mutex<T> {
+    inner: sync::Mutex<T>,
+    id: usize,
+}
+
+impl<T> Mutex<T> {
+    #[track_caller]
+    pub fn new(t: T) -> Self {
+        Mutex {
+            inner: sync::Mutex::new(t),
+            id: new_id("mutex", Location::caller()),
+        }
+    }
+
+    pub fn verif_id(&self) -> usize {
+        self.id
+    }
+
+    pub fn lock(&self) -> LockResult<MutexGuard<'_, T>> {
+        let h = hooks();
+        if let Some(h) = &h {
+            h.before_lock(self.id);
+        }
+        match self.inner.lock() {
+            Ok(g) => Ok(MutexGuard {
+                mutex: self,
+                inner: Some(g),
+            }),
+            Err(e) => Err(PoisonError::new(MutexGuard {
+                mutex: self,
+                inner: Some(e.into_inner()),
+            })),
+        }
+    }
+}
+
+impl<T: fmt::Debug> fmt::Debug for Mutex<T> {
+    fn fmt(&self, f: &mut fmt::Formatter<'_>) -> fmt::Result {
+        self.inner.fmt(f)
+    }
+}
+
+pub struct MutexGuard<'a, T> {
+    mutex: &'a Mutex<T>,
+    inner: Option<sync::MutexGuard<'a, T>>,
+}
+
+impl<T> Deref for MutexGuard<'_, T> {
+    type Target = T;
+    fn deref(&self) -> &T {
+        self.inner.as_ref().unwrap()
+    }
+}
+
+impl<T> DerefMut for MutexGuard<'_, T> {
+    fn deref_mut(&mut self) -> &mut T {
+        self.inner.as_mut().unwrap()
+    }
+}
+
+impl<T> Drop for MutexGuard<'_, T> {
+    fn drop(&mut self) {
+        if let Some(g) = self.inner.take() {
+            drop(g);
+            if let Some(h) = hooks() {
+                h.after_unlock(self.mutex.id);
+            }
+        }
+    }
+}
+
+impl<T: fmt::Debug> fmt::Debug for MutexGuard<'_, T> {
+    fn fmt(&self, f: &mut fmt::Formatter<'_>) -> fmt::Result {
+        (**self).fmt(f)
+    }
+}
+
+pub struct Condvar {
+    inner: sync::Condvar,
+    id: usize,
+}
+
+impl Condvar {
+    #[track_caller]
+    pub fn new() -> Self {
+        Condvar {
+            inner: sync::Condvar::new(),
+            id: new_id("condvar", Location::caller()),
+        }
+    }
+
+    pub fn verif_id(&self) -> usize {
+        self.id
+    }
+
+    pub fn wait<'a, T>(&self, mut guard: MutexGuard<'a, T>) -> LockResult<MutexGuard<'a, T>> {
+        let mutex = guard.mutex;
+        let std_guard = guard.inner.take().unwrap();
+        match hooks() {
+            None => match self.inner.wait(std_guard) {
+                Ok(g) => Ok(MutexGuard {
+                    mutex,
+                    inner: Some(g),
+                }),
+                Err(e) => Err(PoisonError::new(MutexGuard {
+                    mutex,
+                    inner: Some(e.into_inner()),
+                })),
+            },
+            Some(h) => {
+                // Release the real mutex, then let the scheduler decide when we have been notified
+                // and may take the mutex again.
+                drop(std_guard);
+                h.wait(self.id, mutex.id);
+                match mutex.inner.lock() {
+                    Ok(g) => Ok(MutexGuard {
+                        mutex,
+                        inner: Some(g),
+                    }),
+                    Err(e) => Err(PoisonError::new(MutexGuard {
+                        mutex,
+                        inner: Some(e.into_inner()),
+                    })),
+                }
+            }
+        }
+    }
+
+    pub fn notify_all(&self) {
+        if let Some(h) = hooks() {
+            h.notify(self.id, true);
+        }
+        self.inner.notify_all();
+    }
+
+    pub fn notify_one(&self) {
+        if let Some(h) = hooks() {
+            h.notify(self.id, false);
+        }
+        self.inner.notify_one();
+    }
+}
+
+impl Default for Condvar {
+    #[track_caller]
+    fn default() -> Self {
+        Self::new()
+    }
+}
+
+impl fmt::Debug for Condvar {
+    fn fmt(&self, f: &mut fmt::Formatter<'_>) -> fmt::Result {
+        self.inner.fmt(f)
+    }
+}
+
+pub struct AtomicU32 {
+    inner: sync::atomic::AtomicU32,
+    id: usize,
+}
+
+impl AtomicU32 {
+    #[track_caller]
+    pub fn new(v: u32) -> Self {
+        AtomicU32 {
+            inner: sync::atomic::AtomicU32::new(v),
+            id: new_id("atomic", Location::caller()),
+        }
+    }
+
+    pub fn load(&self, order: Ordering) -> u32 {
+        if let Some(h) = hooks() {
+            h.atomic(self.id, false);
+        }
+        self.inner.load(order)
+    }
+
+    pub fn store(&self, v: u32, order: Ordering) {
+        if let Some(h) = hooks() {
+            h.atomic(self.id, true);
+        }
+        self.inner.store(v, order)
+    }
+}
+
+impl fmt::Debug for AtomicU32 {
+    fn fmt(&self, f: &mut fmt::Formatter<'_>) -> fmt::Result {
+        self.inner.fmt(f)
+    }
+}
